@@ -555,4 +555,92 @@ theorem unit_dec_open (ds e : Bytes) (hne : ds ≠ []) (hall : ds.all isDig = tr
     congr 2
     omega
 
+theorem hexVal_non (c : UInt8) (h : isHex c = false) : hexValN c = 256 := by
+  have := forall_byte (fun c => isHex c || hexValN c == 256) (by decide +kernel) c
+  rw [h] at this
+  simpa using this
+
+theorem decHexLoop_stop (s : Bytes) : ∀ (ds : Bytes) (val i fuel : Nat) (e : Bytes),
+    ds.all isHex = true → s.drop i = ds ++ e → Stops isHex e → hexFrom val ds ≤ 0x1000FF → ds.length < fuel →
+    decHexLoop s val i fuel = .ok ((hexFrom val ds : Nat), i + ds.length)
+  | [], val, i, fuel, e, _, hs, hst, _, hf => by
+    cases fuel with
+    | zero => omega
+    | succ fuel =>
+      unfold decHexLoop
+      rcases hst with rfl | ⟨c, t, rfl, hc, hc59⟩
+      · have hge : ¬ i < s.length := by
+          intro hlt
+          have := congrArg List.length hs
+          simp at this; omega
+        simp [hge, pure, Except.pure, hexFrom]
+      · have hlt : i < s.length := by
+          rcases Nat.lt_or_ge i s.length with h | h
+          · exact h
+          · rw [List.drop_of_length_le h] at hs; cases hs
+        have hget : s[i] = c := by
+          have := congrArg (fun l => l[0]?) hs
+          simp only [List.getElem?_drop, Nat.add_zero, List.nil_append, List.getElem?_cons_zero] at this
+          rw [List.getElem?_eq_getElem hlt] at this
+          exact Option.some.inj this
+        have h59 : (c == 59) = false := by simpa using hc59
+        simp [hlt, at'_ok hlt, hget, h59, hexDec_eq, hexVal_non c hc, bind, Except.bind, pure, Except.pure, hexFrom]
+  | d :: ds, val, i, fuel, e, hall, hs, hst, hv, hf => by
+    cases fuel with
+    | zero => omega
+    | succ fuel =>
+      simp only [List.all_cons, Bool.and_eq_true] at hall
+      have hlt : i < s.length := by
+        rcases Nat.lt_or_ge i s.length with h | h
+        · exact h
+        · rw [List.drop_of_length_le h] at hs; cases hs
+      have hget : s[i] = d := by
+        have := congrArg (fun l => l[0]?) hs
+        simp only [List.getElem?_drop, Nat.add_zero, List.cons_append, List.getElem?_cons_zero] at this
+        rw [List.getElem?_eq_getElem hlt] at this
+        exact Option.some.inj this
+      obtain ⟨h16, hn59⟩ := hexVal_facts d hall.1
+      have hne59 : (d == 59) = false := by simpa using hn59
+      have hn256 : (hexValN d == 256) = false := by
+        have : hexValN d ≠ 256 := by omega
+        simpa using this
+      have hstep : hexFrom val (d :: ds) = hexFrom (hexStep val d) ds := rfl
+      have hle := hexFrom_ge ds (hexStep val d)
+      rw [hstep] at hv
+      have hov : ¬ (val * 16 + hexValN d > 0x1000FF) := by unfold hexStep at hle hv; omega
+      have hs' : s.drop (i + 1) = ds ++ e := by
+        have : s.drop (i + 1) = (s.drop i).drop 1 := by rw [List.drop_drop]
+        rw [this, hs]; rfl
+      unfold decHexLoop
+      simp only [hlt, ↓reduceIte, at'_ok hlt, hget, hne59, Bool.false_eq_true, hexDec_eq, hn256, hov, bind, Except.bind,
+        pure, Except.pure]
+      rw [decHexLoop_stop s ds (val * 16 + hexValN d) (i + 1) fuel e hall.2 hs' hst hv (by simp at hf; omega), hstep]
+      simp only [hexStep, List.length_cons]
+      congr 2
+      omega
+
+/-- **hexadecimal reference without `;`**, followed by a byte that does not continue it -/
+theorem unit_hex_open (x : UInt8) (hx : x = 120 ∨ x = 88) (ds e : Bytes) (hne : ds ≠ []) (hall : ds.all isHex = true)
+    (hv : hexFrom 0 ds ≤ 0x1000FF) (hst : Stops isHex e) : DecUnit ([38, 35, x] ++ ds) e (hexFrom 0 ds : Nat) := by
+  refine ⟨by simp, ?_⟩
+  match ds, hne, hall, hv with
+  | d :: ds', _, hall, hv =>
+    simp only [List.all_cons, Bool.and_eq_true] at hall
+    obtain ⟨h16, _⟩ := hexVal_facts d hall.1
+    have hxx : (x == 120 || x == 88) = true := by rcases hx with rfl | rfl <;> decide
+    have hn256 : (hexValN d == 256) = false := by
+      have : hexValN d ≠ 256 := by omega
+      simpa using this
+    unfold htmlDecodeByteAt
+    simp only [List.cons_append, List.nil_append, List.length_cons, List.length_append, at', List.getElem?_cons_zero,
+      List.getElem?_cons_succ, bind, Except.bind, pure, Except.pure, hxx, ↓reduceIte, hexDec_eq, hn256,
+      bne_self_eq_false, Bool.false_or, Bool.false_eq_true]
+    rw [if_neg (by simp), if_neg (by simp), if_neg (by simp), if_neg (by simp)]
+    have e1 : hexFrom 0 (d :: ds') = hexFrom (hexValN d) ds' := by
+      show hexFrom (hexStep 0 d) ds' = _
+      unfold hexStep; simp
+    rw [decHexLoop_stop _ ds' (hexValN d) 4 _ e hall.2 rfl hst (by rw [← e1]; exact hv) (by omega), e1]
+    congr 2
+    omega
+
 end LibInj.Xss
